@@ -23,6 +23,11 @@ TRUSTED = ['scipy.signal.periodogram is abstracted (degree-2 homogeneity and fre
 ASSUMPTIONS = ['CODATA exact SI constants for e, k_B, N_A']
 
 
+def pre_build():
+    import translate
+    return [translate.gen_formulas_c14()]
+
+
 def gen_cases(rng, tier):
     n = {'quick': 90, 'thorough': 2000, 'search': 60}[tier]
     cases = []
